@@ -102,7 +102,16 @@ pub fn run(ctx: &mut Ctx) {
         }
         if let Some(sig) = &j.sig {
             let sigs: BTreeSet<String> = [sig.clone()].into_iter().collect();
-            let key = attr.key_for("world", &w.labels, &sigs);
+            // a recorded false rejection (valid->X) of a sub-world stops the analysis with X whatever else
+            // the world contains: X alone is then attributed to that failure, not reported per combination
+            let masked = match sig.split_once("->") {
+                Some((exp, obs)) if exp != "valid" && obs != "OK" => attr.find_root("world", &w.labels, &format!("valid->{}", obs)),
+                _ => None,
+            };
+            let key = match masked {
+                Some(k) => k,
+                None => attr.key_for("world", &w.labels, &sigs),
+            };
             ctx.fail(&key, &format!("[{}] {} ;; violated per reference model: {:?}, reported: {:?}", w.labels.join(","), j.detail, w.violated, j.codes), json!({"labels": w.labels, "text": w.text(), "violated": w.violated.iter().collect::<Vec<_>>()}));
         }
         if ctx.want_sample(n as u64, total) {
